@@ -47,6 +47,12 @@ def mk_align(kind, period):
             "future": T0_WALL + timedelta(days=1)}[kind]
 
 
+def F_push(sender, sample):
+    from . import formula as F
+
+    F.push(sender, sample)
+
+
 def run_case(period, align_kind, phase_f, lates, sink_lat, add_at):
     """lates: {tick index: lateness in periods}; sink_lat: {(series, k-th sample): latency in periods};
     add_at: {series name: tick index after which it is added (0 = before resample() starts)}."""
@@ -87,6 +93,15 @@ def run_case(period, align_kind, phase_f, lates, sink_lat, add_at):
             if add_at[n] == 0:
                 add(n)
         excs = []
+        feed = src.new_sender()
+
+        def feed_sample():
+            # a source sparser than the resampling period: one valid sample every third tick, so that two
+            # consecutive ticks see the same non-empty set of relevant samples
+            from frequenz.quantities import Quantity
+            from frequenz.sdk.timeseries import Sample
+
+            F_push(feed, Sample(loop.wall_now(), Quantity(1.0)))
 
         async def forever():
             # the production caller re-invokes resample() whenever it returns or raises
@@ -108,6 +123,9 @@ def run_case(period, align_kind, phase_f, lates, sink_lat, add_at):
             if t is None or t > H + 1e-9:
                 break
             late = lates.get(k, 0.0) * period
+            if k % 3 == 0:
+                feed_sample()
+                loop.settle()
             k += 1
             loop.set_time(max(loop.time(), min(t + late, H)))
             loop.settle()
@@ -340,10 +358,11 @@ def shard(args) -> Acc:
     acc = Acc()
     add_variants = [{"a": 0}, {"a": 0, "b": 0}, {"a": 0, "b": 3}, {"a": 0, "b": 2, "c": 4}, {"a": 2, "b": 2}, {"a": 1, "b": 3}] \
         if tier != "quick" else [{"a": 0, "b": 0}, {"a": 0, "b": 3}, {"a": 0, "b": 2, "c": 4}, {"a": 2, "b": 2}]
+    many = {f"s{i:02d}": (0 if i < 12 else 2) for i in range(20)}  # 20 series, 8 of them added after tick 2
     for devs in deviation_sets(tier):
         lates = {k: l for kind, k, l in devs if kind == "late"}
         sinks = {("a", k): l for kind, k, l in devs if kind == "sink"}
-        for add_at in add_variants:
+        for add_at in add_variants + ([many] if len(devs) == 0 else []):
             created, out, end_now, excs, align, P = run_case(period, align_kind, phase_f, lates, sinks, add_at)
             viol = oracle(created, out, end_now, align, P, add_at)
             acc.evaluations += 1
@@ -355,7 +374,7 @@ def shard(args) -> Acc:
                 acc.nontrivial += 1
             for e in excs:
                 acc.counters[f"resample_raised_{e}"] += 1
-            acc.outcome(f"ticks={len(out['a'])} devs={len(devs)} series={len(add_at)}")
+            acc.outcome(f"ticks={len(out[sorted(out)[0]])} devs={len(devs)} series={len(add_at)}")
             acc.state(repr((period, align_kind, phase_f, devs, sorted(add_at.items()))))
             case = {"period": period, "align": align_kind, "phase": phase_f, "deviations": [list(d) for d in devs], "add_at": add_at}
             if acc.evaluations % 600 == 1:
@@ -431,7 +450,7 @@ def run(tier: str, seed: int, workers: int):
         "rule": "periods 1 s, 2 s and 7 s (which does not divide a day) x 6 align_to settings (None, epoch, epoch + quarter period, a future instant, "
         "an instant given in a time zone whose UTC offset is not a multiple of the period, an instant in a DST-observing zone with the "
         "run crossing the end of DST) x 7 creation phases relative to the grid (exactly aligned, 400 us after and before a "
-        "grid point, 1/4, 1/3, 1/2, 3/4) x series added before start / after tick k (2-3 series; in one variant no series exists until tick 2) x every deviation set with at most "
+        "grid point, 1/4, 1/3, 1/2, 3/4) x series added before start / after tick k (2-3 series; in one variant no series exists until tick 2; without deviations also 20 series) x every deviation set with at most "
         "1 (quick: plus selected pairs) / 2 (thorough) deviations among: timer wake-up k late by 0.3 / 1 / 1.5 / 3.2 periods, sink call k "
         "taking 0.5 / 1 / 2.5 periods; horizon 10 periods; non-trivial = at least one deviation; plus the real "
         "ComponentMetricsResamplingActor (subscriptions through its request channel, before the first tick or after tick k; outputs read "
@@ -441,6 +460,7 @@ def run(tier: str, seed: int, workers: int):
             "resample() is re-invoked whenever it returns or raises, as ComponentMetricsResamplingActor does (an IndexError raised when a "
             "series is added while a gather over slow sinks is in flight is counted, not flagged)",
             "wall clock bound to the virtual clock; lateness is modelled as the loop waking up late for a timer",
+            "the source delivers one valid sample every third tick (sparser than the resampling period)",
         ],
         "exhaustive": True,
         "bounds": {"horizon_periods": N_TICKS, "max_deviations": 1 if tier == "quick" else 2},
